@@ -141,6 +141,11 @@ def gen_model_cfg(rng: random.Random, tb: dict, shock_prone=False) -> dict:
     }
     if rng.random() < 0.25:
         cfg["alpha_base"] = rng.choice([1.0, cfg["alpha_max"]])
+    if rng.random() < 0.25:
+        # parameters typed as Python ints where the value is integral (accepted by the constructors)
+        for kk in ("alpha_base", "alpha_max"):
+            if float(cfg[kk]).is_integer() and rng.random() < 0.7:
+                cfg[kk] = int(cfg[kk])
     r = rng.random()
     if r < 0.2:
         cfg["inf_sect"] = rng.sample(secs, rng.randint(1, max(1, len(secs) - 1)))
@@ -328,6 +333,9 @@ def gen_scenario(seed: int, stream: str = "shocked", **over) -> dict:
     rng = random.Random(seed)
     if stream == "starve":
         return gen_starve(seed, rng)
+    if stream == "eventfree" and "scale" not in over and rng.random() < 0.25:
+        # very small magnitudes (a table in a huge unit): every flow below NumPy's absolute tolerance 1e-8
+        over = dict(over, scale=10.0 ** rng.choice([-9, -12, -15]))
     tb = gen_table(rng, **{kk: over[kk] for kk in ("m", "n", "k", "kind", "scale") if kk in over})
     shock_prone = stream in ("shortage", "crash")
     cfg = gen_model_cfg(rng, tb, shock_prone=shock_prone)
@@ -341,6 +349,16 @@ def gen_scenario(seed: int, stream: str = "shocked", **over) -> dict:
             cfg["dt"] = rng.choice([2, 3, 5])
             sc["T"] = sc["T"] * cfg["dt"]
         return sc
+    # step lengths other than 1 with events: occurrences and durations are temporal units and need not fall on
+    # the grid of simulated times; characteristic times need not be multiples of the step
+    if over.get("dt") is not None:
+        cfg["dt"] = over["dt"]
+    elif stream not in ("starve",) and rng.random() < 0.25:
+        cfg["dt"] = rng.choice([2, 3, 5, 7])
+    if cfg["dt"] != 1:
+        T = T * cfg["dt"] if T * cfg["dt"] <= 90 else T * 2
+        T -= T % cfg["dt"]
+        sc["T"] = T
     # capital of the built model is needed to size impacts
     model = build_model(tb, cfg)
     K = [float(v) for v in np.asarray(model.productive_capital, dtype=float).ravel()]
